@@ -24,15 +24,14 @@ Definition check_bits (c : bits_case) : N :=
    Hashes are byte strings; the model's hash values are numbers: an injective tagging (leading 1 byte) carries them.
    branchHash is the real one (SHA-256 of 0x01 || left || right), getHeight / getLayerStructure are the exact integer versions
    of RMT/Proof.v (equal to the floating-point code for size <= 2^53; larger sizes are skipped, code 100). *)
-From LE Require RMT.Proof.
 From LE Require Import Safe.RmtIndex Hash.Sha256.
 Definition tagN (bs : list N) : N := fold_left (fun a b => a * 256 + b) bs 1.
 Fixpoint untag_aux (fuel : nat) (n : N) (acc : list N) : list N :=
   match fuel with O => acc | S f => if n <=? 1 then acc else untag_aux f (n / 256) (n mod 256 :: acc) end.
 Definition untagN (n : N) : list N := untag_aux 200 n [].
 Definition bh_real (a b : N) : N := tagN (sha256 (1 :: untagN a ++ untagN b)).
-Definition gh_exact (size : N) : N := LE.RMT.Proof.get_height size.
-Definition gls_exact (size : N) : list Z := map Z.of_N (LE.RMT.Proof.layer_structure size).
+Definition gh_exact (size : N) : N := gh_int size.
+Definition gls_exact (size : N) : list Z := gls_int size.
 
 (* (update?, query hashes or update data, size, idxs, sibling hashes, root, status, implementation result ok/true?) *)
 Definition rmt_case : Type := bool * list (list N) * N * list N * list (list N) * list N * N * bool.
@@ -46,10 +45,11 @@ Definition check_rmt (c : rmt_case) : N :=
     let m := if (size =? 0) || Nat.eqb (length idxs) 0 then Err ErrInvalidData
              else if negb (Nat.eqb (length qs) (length idxs)) then Err ErrInvalidData
              else match calculate_path_nodes bh_real gh_exact gls_exact qh size idxs sb with
-                  | Ok tree => match mget tree 2 with Some _ => Ok true | None => Err ErrInvalidData end
+                  | Ok tree => match mget tree 2 with Some r => Ok (r =? tagN root) | None => Err ErrInvalidData end
                   | Err e => Err e | Panic => Panic | OutOfFuel => OutOfFuel
                   end in
-    code (match m with Ok _ => (st =? 0) && res | Err _ => (st =? 0) && negb res | Panic => st =? 2 | OutOfFuel => st =? 3 end)
+    (* [root] is the root the implementation computed: the model must compute the same one *)
+    code (match m with Ok same => (st =? 0) && res && same | Err _ => (st =? 0) && negb res | Panic => st =? 2 | OutOfFuel => st =? 3 end)
          (negb ((st =? 2) || (st =? 3)))
   else
     let m := verify_proof bh_real gh_exact gls_exact qh size idxs sb (tagN root) in
